@@ -2085,7 +2085,9 @@ class ktensor:
         if (
             len(vector) > 0
             and isinstance(vector, np.ndarray)
-            and isinstance(vector.squeeze()[0], (int, float, np.int_, np.float64))
+            and isinstance(
+                np.atleast_1d(vector.squeeze())[0], (int, float, np.int_, np.float64)
+            )
         ):
             return self.ttv([vector], dims, exclude_dims)
 
@@ -2093,11 +2095,13 @@ class ktensor:
         dims, vidx = tt_dimscheck(self.ndims, len(vector), dims, exclude_dims)
 
         # Check that each multiplicand is the right size.
+        # A vector for a singleton mode squeezes to a scalar, keep it one-dimensional
+        vector = [np.atleast_1d(np.squeeze(a_vector)) for a_vector in vector]
         for i in range(dims.size):
-            if vector[vidx[i]].squeeze().shape != (self.shape[dims[i]],):
+            if vector[vidx[i]].shape != (self.shape[dims[i]],):
                 assert False, (
                     f"Multiplicand is wrong size. Vector[{i}] was "
-                    f"{vector[vidx[i]].squeeze().shape}"
+                    f"{vector[vidx[i]].shape}"
                     f", but expected {(self.shape[dims[i]],)}."
                 )
 
@@ -2107,9 +2111,7 @@ class ktensor:
         # Collapse dimensions that are being multiplied out
         new_weights = self.weights.copy()
         for i, dim in enumerate(dims):
-            new_weights = new_weights * (
-                self.factor_matrices[dim].T @ vector[vidx[i]].squeeze()
-            )
+            new_weights = new_weights * (self.factor_matrices[dim].T @ vector[vidx[i]])
 
         # Create final result
         if len(remdims) == 0:
